@@ -16,6 +16,7 @@ theorem foldl_preserve {α : Type} (f : Mem → α) (l : List MemUpd) (h : ∀ u
 /-- the fields of the memory after the update list of a commit -/
 structure CommitMem (m mF : Mem) (nodeUpds : List MemUpd) (pubRuns : List Run) : Prop where
   pm : mF.pm = lastPm nodeUpds m.pm
+  bm : mF.bm = lastBm nodeUpds m.bm
   idStart : mF.idStart = lastStart nodeUpds m.idStart
   idLen : mF.idLen = m.idLen + countInc nodeUpds
   exts : mF.exts = m.exts ++ pushed nodeUpds
@@ -50,7 +51,7 @@ theorem commit_mem (m : Mem) (cut nodeUpds : List MemUpd) (pub : List MemUpd) (p
     · rw [← hD]; simp
     · rw [← hD]; rfl
   rcases eB with eB | eB <;> subst eB <;> subst eD <;> subst hC <;> subst eA <;>
-    exact ⟨rfl, rfl, rfl, rfl, rfl, rfl, rfl, rfl, rfl, rfl, rfl⟩
+    exact ⟨rfl, rfl, rfl, rfl, rfl, rfl, rfl, rfl, rfl, rfl, rfl, rfl⟩
 
 theorem commitA_memUpds (cfg : Cfg) (m : Mem) (vol : PImg) (w : List Frag) (tx : Tx) (ho : m.walOpen = true) :
     memUpds (commitA cfg m vol w tx) =
@@ -117,28 +118,30 @@ theorem commit_post {cfg : Cfg} {T : List Tx} {fs : FS} {m : Mem} {cs : List CTx
       rw [h.pager.slots i (by rw [h.full]; exact hi), allNodes_snoc, getSlot_append_left _ _ _ hi]
   have hpm : OKhdr c' fs.pd (allNodes T).length (m.ps fs.pv).pm := by
     show OKhdr c' fs.pd (allNodes T).length m.pm
-    rw [h.mpm]
-    exact ⟨rfl, rfl, h.pager.start, by rw [h.full]; exact hcN, by rw [h.full]; exact Nat.le_refl _, Nat.le_refl _⟩
+    exact (⟨rfl, rfl, h.pager.start, by rw [h.full]; exact hcN, by rw [h.full]; exact Nat.le_refl _, Nat.le_refl _⟩ :
+      OKhdr c' fs.pd (allNodes T).length fs.pd.hdr).sameKey h.mpm
   have hdropF : (allNodes (T ++ [tx])).drop (allNodes T).length = tx.nodes ++ [] := by
     rw [allNodes_snoc]; simp
-  have hSy : SyncedI (fs1.step .ws) (m.ps fs.pv).pm := ⟨by rw [hpj2]; exact h.pj, by rw [hpd2]; exact h.mpm.symm⟩
+  have hSy : SyncedI (fs1.step .ws) (m.ps fs.pv) := ⟨by rw [hpj2]; exact h.pj, by rw [hpd2]; exact h.mpm, by rw [hpd2]; exact h.mbm⟩
   have hl1 : (m.ps fs.pv).pm.i2eLen = (allNodes T).length := by
     show m.pm.i2eLen = _
-    rw [h.mpm, h.full]
+    rw [h.mpm.len, h.full]
   have hl2 : ({ start := m.idStart, len := m.idLen } : IdSt).start = (m.ps fs.pv).pm.i2eStart := by
     show m.idStart = m.pm.i2eStart
-    rw [h.mstart, h.mpm]
+    rw [h.mstart, h.mpm.start]
   have hl3 : 1 ≤ (m.ps fs.pv).pm.nextPage := by
     show 1 ≤ m.pm.nextPage
-    rw [h.mpm]
     have := h.pager.booted.nextPage
+    have := h.mpm.np
     omega
   have hl4 : (allNodes T).length ≤ (allNodes (T ++ [tx])).length := by rw [allNodes_snoc]; simp
   obtain ⟨_, _, hBF, hSF, _, lenF, idlF, idsF, _⟩ :=
     nodesA_safe (cfg := cfg) (N := allNodes (T ++ [tx])) (c := c') (p0 := fs.pd) h.pager.booted hsync tx.nodes
       (allNodes T).length (fs1.step .ws) (m.ps fs.pv) { start := m.idStart, len := m.idLen } [] hdropF hB hSy hpm hl1 h.mlen hl2 hl3 hcN hl4
+      h.mbm
   have hMF := memFacts_nodesA (cfg := cfg) (N := allNodes (T ++ [tx])) (c := c') (p0 := fs.pd) h.pager.booted hsync tx.nodes
       (allNodes T).length (fs1.step .ws) (m.ps fs.pv) { start := m.idStart, len := m.idLen } [] hdropF hB hSy hpm hl1 h.mlen hl2 hl3 hcN hl4
+      h.mbm
   obtain ⟨_, hpg⟩ := (pagerActs_nodes cfg tx.nodes (m.ps fs.pv) { start := m.idStart, len := m.idLen }).facts
   -- the final file-system state
   have hfinal : fs.steps (ioSteps (commitA cfg m fs.pv fs.wf tx)) =
@@ -168,11 +171,16 @@ theorem commit_post {cfg : Cfg} {T : List Tx} {fs : FS} {m : Mem} {cs : List CTx
       memUpds (nodesA cfg (m.ps fs.pv) { start := m.idStart, len := m.idLen } tx.nodes).1 ++
       (if tx.edges.isEmpty && tx.props.isEmpty then []
         else [MemUpd.pushRun { txid := m.nextTxid, edges := tx.edges, props := tx.props }]) ++ [MemUpd.bumpTxid]).foldl applyUpd m = mF at hCM
-  have hpmF : mF.pm = fsF.pd.hdr := by
+  have hpmF : SameKey fsF.pd.hdr mF.pm := by
     rw [hCM.pm]
     have : lastPm (memUpds (nodesA cfg (m.ps fs.pv) { start := m.idStart, len := m.idLen } tx.nodes).1) m.pm =
         (nodesA cfg (m.ps fs.pv) { start := m.idStart, len := m.idLen } tx.nodes).2.1.pm := hMF.pm
-    rw [this, hSF.2]
+    rw [this]; exact hSF.2.1
+  have hbmF : fsF.pd.bm ≤ mF.bm := by
+    rw [hCM.bm]
+    have : lastBm (memUpds (nodesA cfg (m.ps fs.pv) { start := m.idStart, len := m.idLen } tx.nodes).1) m.bm =
+        (nodesA cfg (m.ps fs.pv) { start := m.idStart, len := m.idLen } tx.nodes).2.1.bm := hMF.bm
+    rw [this]; exact hSF.2.2
   -- the run of the new transaction in the log
   have hcsEq : cs' = cs ++ [⟨m.nextTxid, body (allNodes T).length tx⟩] := by
     have h1 : committed (readAll (fs0.wf ++ frames (txRecs m.nextTxid m.idLen tx))) =
@@ -192,14 +200,14 @@ theorem commit_post {cfg : Cfg} {T : List Tx} {fs : FS} {m : Mem} {cs : List CTx
              log := hlog',
              pager := hNGF.pagerOK h.pager.booted (by rw [hlenN]; exact Nat.le_refl _),
              store := hFr.store hstore',
-             full := ?_, mpm := hpmF, mlen := ?_, mstart := ?_, mexts := ?_, mruns := ?_, msegs := ?_, mroot := ?_,
+             full := ?_, mpm := hpmF, mbm := hbmF, mlen := ?_, mstart := ?_, mexts := ?_, mruns := ?_, msegs := ?_, mroot := ?_,
              mptop := ?_, mepoch := ?_, mtxid := ?_, mwal := ?_ }
-    · rw [hSF.2, lenF, hlenN]
+    · rw [← hSF.2.1.len, lenF, hlenN]
     · rw [hCM.idLen, hMF.inc, h.mlen, hlenN]
     · rw [hCM.idStart]
       have : lastStart (memUpds (nodesA cfg (m.ps fs.pv) { start := m.idStart, len := m.idLen } tx.nodes).1) m.idStart =
           (nodesA cfg (m.ps fs.pv) { start := m.idStart, len := m.idLen } tx.nodes).2.2.start := hMF.start
-      rw [this, idsF, hSF.2]
+      rw [this, idsF, hSF.2.1.start]
     · rw [hCM.exts, hMF.push, h.mexts, allNodes_snoc]
     · rw [hCM.runs, h.mruns, hckEq, hcsEq, logRuns_append]
       congr 1
